@@ -1,6 +1,6 @@
 (* Python 3.12 glob.glob(pattern, recursive=True, include_hidden=True) on a finite directory tree,
-   followed by the directory normalisation of NamedGlob.glob() (a trailing separator is added to
-   every result that is a directory).  Definitions only.
+   followed by what NamedGlob.glob() does with each result (a trailing separator is added to a
+   directory; a result that ends with a separator but is no directory is skipped).  Definitions only.
 
    Domain: relative patterns whose components (split at '/') are non-empty except possibly the
    last one, none equal to "." or ".."; trees without symbolic links.  Within that domain the
@@ -145,9 +145,19 @@ Fixpoint walk (cs : list str) (seen_magic : bool) (st : state) : state :=
 Definition canon (pn : str * option node) : str :=
   if is_dir_opt (snd pn) && negb (ends_slash (fst pn)) then fst pn ++ [47] else fst pn.
 
-(* the list NamedGlob.glob() passes to extend *)
+(* glob.iglob(pattern, recursive=True, include_hidden=True) with the directory normalisation *)
+Definition walked (root : list entry) (pat : str) : state :=
+  filter (fun pn => negb (is_nil (fst pn))) (walk (split_slash pat []) false [([], Some (Dir root))]).
+
+Definition glob_paths_raw (root : list entry) (pat : str) : list str := map canon (walked root pat).
+
+(* the list NamedGlob.glob() passes to extend:
+     if path.is_dir(): path = path / ""
+     elif path.endswith("/"): continue        (glob's unchecked "prefix/" for a recursive pattern) *)
+Definition kept (pn : str * option node) : bool := is_dir_opt (snd pn) || negb (ends_slash (fst pn)).
+
 Definition glob_paths (root : list entry) (pat : str) : list str :=
-  map canon (filter (fun pn => negb (is_nil (fst pn))) (walk (split_slash pat []) false [([], Some (Dir root))])).
+  map canon (filter kept (walked root pat)).
 
 (* every existing path of the tree, directories with a trailing separator *)
 Definition all_paths (root : list entry) : list str :=
